@@ -113,7 +113,35 @@ def r1_sites(chk, repo, d):
                 sites.append((c, c.args[0]))
     chk.floor("R01.1", "instruction emission sites", len(sites), 25)
     n = 0
+    # an opcode held in a local that is bound to whole opcode expressions
+    # (`opcode, dst = self.opcode + Opcode.REG, ...` in the branches, one
+    # Instruction(opcode, ...) after them): every binding is looked at
+    expanded = []
     for call, opx in sites:
+        fn_ = repo.enclosing_function(call)
+        if isinstance(opx, ast.Name) and fn_ is not None and opx.id not in \
+                param_names(fn_) and opx.id != "op" and \
+                local_opcode_domain(repo, call, opx.id) is None:
+            vals = []
+            for st in walk_no_nested(fn_):
+                if not isinstance(st, ast.Assign):
+                    continue
+                for tg in st.targets:
+                    if isinstance(tg, ast.Name) and tg.id == opx.id:
+                        vals.append(st.value)
+                    elif isinstance(tg, ast.Tuple) and isinstance(
+                            st.value, ast.Tuple) and len(tg.elts) == len(
+                                st.value.elts):
+                        vals += [v for t_, v in zip(tg.elts, st.value.elts)
+                                 if isinstance(t_, ast.Name)
+                                 and t_.id == opx.id]
+            stores_ = [x for x in ast.walk(fn_) if isinstance(x, ast.Name)
+                       and x.id == opx.id and isinstance(x.ctx, ast.Store)]
+            if vals and len(vals) == len(stores_):
+                expanded += [(call, v) for v in vals]
+                continue
+        expanded.append((call, opx))
+    for call, opx in expanded:
         sym = func_qual(repo, call)
         terms = opcode_terms(opx)
         # each term: constant member, optional member (M * cond), or a
